@@ -14,13 +14,13 @@ ENGINE = "lsim"
 CHECKS = {
  "C01": ("exploration", "seeded search over (option configuration x operation history x schedule): the real lcdb objects run under the deterministic scheduler on the simulated file system and every read is compared with a sorted-map model after every step and by full sweeps after every structural event; sampled, not exhaustive.", "7 C01",
          "one caller thread + lcdb's background worker; option space and plan language of DESIGN section 5; a clean campaign is evidence, not proof", "deterministic simulation: model-based oracle under seeded schedules"),
- "C06": ("exploration", "same runs as C01 with up to 6 simultaneously live snapshots held across per-level manual compactions, flushes, reopen-free histories; every read through a snapshot (get and both scan directions) is compared with the frozen model copy taken when ldb_snapshot returned.", "7 C06",
+ "C06": ("exploration", "same runs as C01 with up to 6 simultaneously live snapshots held across per-level manual compactions, flushes, reopen-free histories; every read through a snapshot (get and both scan directions) is compared with the frozen model copy taken when ldb_snapshot returned. A concurrency campaign (2-8 threads) holds snapshots across a flush and a level-0 compaction issued by the holder while the other threads keep writing and compacting, and re-reads them: the view must not change.", "7 C06",
          "snapshot views are compared at every structural event and at sampled steps, not after every single step", "deterministic simulation: frozen-model oracle under seeded schedules"),
- "C07": ("exploration", "up to 4 live iterators (with and without snapshots) driven through all nine positioning calls with present/absent/boundary/empty targets and direction changes, while writes, flushes, compactions and file deletions proceed; valid/key/value/status compared with a cursor over the frozen model after every call.", "7 C07",
+ "C07": ("exploration", "up to 4 live iterators (with and without snapshots) driven through all nine positioning calls with present/absent/boundary/empty targets and direction changes, while writes, flushes, compactions and file deletions proceed; valid/key/value/status compared with a cursor over the frozen model after every call. A concurrency campaign keeps iterators alive across a flush and a compaction under concurrent writers and requires a second traversal to yield the same entries, forward = backward, keys strictly increasing, status OK.", "7 C07",
          "each iterator is used by one thread; next/prev only issued when valid (API contract)", "deterministic simulation: model cursor oracle under seeded schedules"),
  "C13": ("exploration", "a file-set monitor inside the simulated file system watches every create/unlink of the journal: unlink of a table pinned by a live iterator, ENOENT on a table open, file-number reuse (within an incarnation and across reopen/crash), and directory == live set at quiescent points after flush/compaction/reopen/kill-restart.", "7 C13",
          "the pinned set of an iterator is the intersection of the layouts reported immediately before and after its creation (sound, possibly incomplete); liveness of a table is learnt from reported layouts", "deterministic simulation: journal monitor + quiescent-point directory audit"),
- "C14": ("exploration", "at every quiescent point after a structural event the reported layout is parsed and every table is decoded by an independent reader: size, exact bounds, strict internal-key order, disjoint sorted levels, per-user-key age order across level-0 files and levels; flush+close+reopen must reproduce the listing (read before the worker's first step).", "7 C14",
+ "C14": ("exploration", "at every quiescent point after a structural event the reported layout is parsed and every table is decoded by an independent reader: size, exact bounds, strict internal-key order, disjoint sorted levels, per-user-key age order across level-0 files and levels; flush+close+reopen must reproduce the listing (read before the worker's first step). A concurrency campaign applies the same structure check at the quiescent point after every multi-threaded history (flushes running inside compactions).", "7 C14",
          "independent decoders written from the format documents are trusted; quiescence is exact (scheduler drain)", "deterministic simulation: independent decoder cross-check at quiescent points"),
  "C17": ("exploration", "in-family part only: at every reopen and kill-restart of real histories the MANIFEST named by CURRENT is decoded and replayed by an independent decoder/builder and compared with the reported layout; every edit is re-encoded and must be byte-identical; counters must cover every file on disk. The exhaustive field-value/varint sweep is a pure-input property and is not claimed.", "7 C17",
          "edit encode/decode totality over all field values (inputs quantifier) is NOT covered by this technique", "deterministic simulation: independent MANIFEST replay on simulated histories"),
